@@ -12,6 +12,7 @@ mod c09;
 mod c12;
 mod c14;
 mod c16;
+mod c18;
 mod classify;
 mod engine;
 mod json;
@@ -69,6 +70,7 @@ fn main() {
         "C12" => dispatch(&c12::C12, mode, &rest),
         "C14" => dispatch(&c14::C14, mode, &rest),
         "C16" => dispatch(&c16::C16, mode, &rest),
+        "C18" => dispatch(&c18::C18, mode, &rest),
         _ => {
             eprintln!("unknown property {id}");
             2
